@@ -157,6 +157,36 @@ static json memstream_case(json const &cmd)
   return r;
 }
 
+// ---- value metric (C18): colvarvalue static functions called directly
+static colvarvalue mkvalue(std::string const &ty, json const &v)
+{
+  if (ty == "scalar") return colvarvalue(v.at(0).get<double>());
+  if (ty == "vector3") return colvarvalue(cvm::rvector(v.at(0), v.at(1), v.at(2)), colvarvalue::type_3vector);
+  if (ty == "unit") return colvarvalue(cvm::rvector(v.at(0), v.at(1), v.at(2)), colvarvalue::type_unit3vector);
+  if (ty == "quat") return colvarvalue(cvm::quaternion(v.at(0), v.at(1), v.at(2), v.at(3)));
+  cvm::vector1d<cvm::real> a(v.size());
+  for (size_t i = 0; i < v.size(); i++) a[i] = v.at(i).get<double>();
+  return colvarvalue(a, colvarvalue::type_vector);
+}
+
+static json metric_case(json const &cmd)
+{
+  json r;
+  std::string const ty = cmd.at("ty");
+  colvarvalue a = mkvalue(ty, cmd.at("a")), b = mkvalue(ty, cmd.at("b"));
+  cvm::clear_error();
+  r["d2"] = a.dist2(b);
+  r["d2ba"] = b.dist2(a);
+  r["grad"] = cvval(a.dist2_grad(b));
+  if (cmd.contains("lam")) {
+    colvarvalue const m = colvarvalue::interpolate(a, b, cmd["lam"].get<double>());
+    r["interp"] = cvval(m);
+  }
+  r["err"] = cvm::get_error();
+  cvm::clear_error();
+  return r;
+}
+
 static std::string workdir;
 
 static json handle(json const &cmd)
@@ -381,6 +411,22 @@ static json handle(json const &cmd)
       l.push_back(c);
     }
     r["commands"] = l;
+    return r;
+  }
+  if (op == "metric") { json m = metric_case(cmd); m["op"] = op; return m; }
+  if (op == "cvmetric") {
+    colvar *c = cvm::colvar_by_name(cmd.at("cv"));
+    if (!c) { r["rc"] = 1; return r; }
+    colvarvalue a(c->value()), b(c->value());
+    a.real_value = cmd.at("a").get<double>();
+    b.real_value = cmd.at("b").get<double>();
+    r["d2"] = c->dist2(a, b);
+    r["lgrad"] = cvval(c->dist2_lgrad(a, b));
+    r["rgrad"] = cvval(c->dist2_rgrad(a, b));
+    colvarvalue w(a);
+    c->wrap(w);
+    r["wrap"] = w.real_value;
+    r["rc"] = 0;
     return r;
   }
   if (op == "observe") { r = observe(cmd); r["op"] = op; return r; }
